@@ -105,7 +105,7 @@ struct Inst {
 	bool entered[HV_NS]; const void* addr[HV_NS];
 	std::vector<Req> lastFirstExpected; std::vector<uint32_t> lastFirstTags;
 	int8_t activity[HV_NS]; bool activityKnown = false;
-	bool planExists[HV_REGION_COUNT > 0 ? HV_REGION_COUNT : 1]; bool markS[HV_NS], markF[HV_NS], markS0[HV_NS], markF0[HV_NS];   // C06 bookkeeping (marks outstanding now / at the start of the step)
+	bool planExists[HV_REGION_COUNT > 0 ? HV_REGION_COUNT : 1], planExists0[HV_REGION_COUNT > 0 ? HV_REGION_COUNT : 1]; bool markS[HV_NS], markF[HV_NS], markS0[HV_NS], markF0[HV_NS];   // C06 bookkeeping (marks outstanding now / at the start of the step)
 	bool degenerateReplay = false; bool overlongReplay = false;   // the current call replays more transitions than the transition sets hold (F31)
 	bool degeneratePlanDest = false;   // a plan holds (held) a task whose destination is an orthogonal region without composite ancestor (F29)
 	bool inUpdateOrReact = false;
@@ -576,15 +576,15 @@ void Walker::step(const Op& o, size_t index) {
 	switch (o.kind) {
 	case OP_UPDATE: { installScript(in, o); in.outstandingMarks = false; in.inUpdateOrReact = true;
 		OrderModel om(before, x); om.phase(Method::PRE_UPDATE, true, true, false); om.phase(Method::UPDATE, true, true, false); om.phase(Method::POST_UPDATE, false, false, false);
-		std::vector<std::vector<PTask>> plansBefore; for (int r = 0; r < HV_REGION_COUNT; ++r) plansBefore.push_back(readPlan(in, r)); std::memcpy(in.markS0, in.markS, sizeof in.markS); std::memcpy(in.markF0, in.markF, sizeof in.markF);
+		std::vector<std::vector<PTask>> plansBefore; for (int r = 0; r < HV_REGION_COUNT; ++r) plansBefore.push_back(readPlan(in, r)); std::memcpy(in.markS0, in.markS, sizeof in.markS); std::memcpy(in.markF0, in.markF, sizeof in.markF); std::memcpy(in.planExists0, in.planExists, sizeof in.planExists);
 		LIB(f.update()); afterCall(in, what, true); in.inUpdateOrReact = false; judgeOrder(in, om, what); judgePlans(in, plansBefore, wasActive, what); judgeProcessing(in, what, before, wasActive); break; }
 	case OP_REACT_A: { installScript(in, o); in.outstandingMarks = false; in.inUpdateOrReact = true;
 		OrderModel om(before, x); om.phase(Method::PRE_REACT, !BOTTOMUP, true, true); om.phase(Method::REACT, !BOTTOMUP, true, true); om.phase(Method::POST_REACT, BOTTOMUP, false, true);
-		std::vector<std::vector<PTask>> plansBefore; for (int r = 0; r < HV_REGION_COUNT; ++r) plansBefore.push_back(readPlan(in, r)); std::memcpy(in.markS0, in.markS, sizeof in.markS); std::memcpy(in.markF0, in.markF, sizeof in.markF);
+		std::vector<std::vector<PTask>> plansBefore; for (int r = 0; r < HV_REGION_COUNT; ++r) plansBefore.push_back(readPlan(in, r)); std::memcpy(in.markS0, in.markS, sizeof in.markS); std::memcpy(in.markF0, in.markF, sizeof in.markF); std::memcpy(in.planExists0, in.planExists, sizeof in.planExists);
 		LIB(f.react(EvA{(int) o.a0})); afterCall(in, what, true); in.inUpdateOrReact = false; judgeOrder(in, om, what); judgePlans(in, plansBefore, wasActive, what); judgeProcessing(in, what, before, wasActive); break; }
 	case OP_REACT_B: { installScript(in, o); in.outstandingMarks = false; in.inUpdateOrReact = true;
 		OrderModel om(before, x); // an event no state handles reaches only the library's default handlers: no user callback at all
-		std::vector<std::vector<PTask>> plansBefore; for (int r = 0; r < HV_REGION_COUNT; ++r) plansBefore.push_back(readPlan(in, r)); std::memcpy(in.markS0, in.markS, sizeof in.markS); std::memcpy(in.markF0, in.markF, sizeof in.markF);
+		std::vector<std::vector<PTask>> plansBefore; for (int r = 0; r < HV_REGION_COUNT; ++r) plansBefore.push_back(readPlan(in, r)); std::memcpy(in.markS0, in.markS, sizeof in.markS); std::memcpy(in.markF0, in.markF, sizeof in.markF); std::memcpy(in.planExists0, in.planExists, sizeof in.planExists);
 		LIB(f.react(EvB{(int) o.a0})); afterCall(in, what, true); in.inUpdateOrReact = false; judgeOrder(in, om, what); judgePlans(in, plansBefore, wasActive, what); judgeProcessing(in, what, before, wasActive); break; }
 	case OP_QUERY: case OP_QUERY_B: {
 		installScript(in, o);
@@ -856,7 +856,7 @@ void Walker::judgePlans(Inst& in, const std::vector<std::vector<PTask>>& before,
 	}
 	// a failure reported in this step by a sub-state (directly, or passed on by the default planFailed of a nested plan-owning region) makes the
 	// innermost plan-owning region around it fail: its tasks must not be executed and it must not report success
-	{ auto owner = [&](int s0) { for (int c = node(s0).parent; c >= 0; c = node(c).parent) if (in.planExists[node(c).region] || workPlanExists[node(c).region]) return c; return -1; };
+	{ auto owner = [&](int s0) { for (int c = node(s0).parent; c >= 0; c = node(c).parent) if (in.planExists0[node(c).region] || workPlanExists[node(c).region]) return c; return -1; };
 	  for (int i = 0; i < firstRound; ++i) { const Ev& e = x.tr[i];
 		if (!(e.kind == E_LOG_TASK && e.b == 1 && e.state > 0 && e.state < HV_NS && wasActive[e.state])) continue;
 		// reported on behalf of another state (succeed(id)/fail(id) from a different callback): attribution is F13 territory
@@ -879,7 +879,7 @@ void Walker::judgePlans(Inst& in, const std::vector<std::vector<PTask>>& before,
 	bool carried = false; for (int s = 0; s < HV_NS; ++s) if (wasActive[s] && (in.markS0[s] || in.markF0[s])) carried = true;
 	if (reporters == 1 && !anyRequest && !anyPlanEdit && !carried && in.loggerOn && wasActive[lastReporter]) {
 		const int s0 = lastReporter; int r = -1;
-		for (int c = node(s0).parent; c >= 0; c = node(c).parent) if (in.planExists[node(c).region]) { r = c; break; }
+		for (int c = node(s0).parent; c >= 0; c = node(c).parent) if (in.planExists0[node(c).region] || workPlanExists[node(c).region]) { r = c; break; } // plans that exist while the phases run (appends from guards / enter come later)
 		// F13: the per-step status is one accumulator: a report made in a phase that visits sub-states before their head (postUpdate; preReact/react
 		// with bottom-up reactions; postReact with top-down reactions) is inherited by the head, which then counts as having reported itself
 		bool headAfterSubs = false;
